@@ -89,7 +89,18 @@ def build(q, world, quantifier="an", quantification=None, domain_wrap=None, shar
             return t[1]
         raise ValueError(t)
 
+    cond_objects = {}
+
     def C(c):
+        # with share_terms, identical comparisons / predicate calls are ONE condition object as well (c = x.a == 0;
+        # or_(and_(c, p), and_(not_(c), q)))
+        if share_terms and c[0] in ("cmp", "in", "contains", "pred", "func", "hastype", "bool"):
+            if c not in cond_objects:
+                cond_objects[c] = C_(c)
+            return cond_objects[c]
+        return C_(c)
+
+    def C_(c):
         k = c[0]
         if k == "cmp":
             return getattr(operator, c[1])(T(c[2]), T(c[3]))
